@@ -66,8 +66,9 @@ Record ctx := { order : list N; namers : list str; filetypes : list str; assembl
 
 (* events, as the recording generators log them *)
 Inductive event :=
-| EvTFilter (t : N)
-| EvFilter (g : str) (t : N)
+(* a Filter call: the context order the filter is shown, and the type asked about *)
+| EvTFilter (seen : list N) (t : N)
+| EvFilter (g : str) (seen : list N) (t : N)
 | EvNamers (g : str) (order : list N)
 | EvVars (g : str) (visible : list str)
 | EvConsts (g : str) (visible : list str)
@@ -138,7 +139,7 @@ Definition gen_step (c : ctx) (t : target) (pord : list N) (g : gen) (files : li
   : list event * (xerr + list file) :=
   let gord := filter (fun x => memN_ x (gfilter g)) pord in
   let vis := visible_namers c g in
-  let ev0 := map (EvFilter (gname g)) pord ++ [EvNamers (gname g) gord] in
+  let ev0 := map (EvFilter (gname g) pord) pord ++ [EvNamers (gname g) gord] in
   if is_nil (gfiletype g) then (ev0, inl (XNoFileType (gname g))) else
   let existing := find_file (gfilename g) files in
   match match existing with
@@ -187,7 +188,7 @@ Definition exec_target (c : ctx) (t : target) : tresult :=
   match tdir t with
   | [] => {| r_events := []; r_files := Some []; r_err := Some XNoDir |}
   | _ =>
-    let evs := map EvTFilter (order c) in
+    let evs := map (EvTFilter (order c)) (order c) in
     let pord := filter (fun x => memN_ x (tfilter t)) (order c) in
     let '(evs, files, err) := gen_loop c t pord (tgens t) evs [] in
     match err with
@@ -256,8 +257,8 @@ Definition d_ctx : dec ctx := fun x =>
 
 Definition e_event (e : event) : sexp :=
   match e with
-  | EvTFilter t => etag "tfilter" [enum t]
-  | EvFilter g t => etag "filter" [estr g; enum t]
+  | EvTFilter o t => etag "tfilter" [elist enum o; enum t]
+  | EvFilter g o t => etag "filter" [estr g; elist enum o; enum t]
   | EvNamers g o => etag "namers" [estr g; elist enum o]
   | EvVars g v => etag "vars" [estr g; elist estr v]
   | EvConsts g v => etag "consts" [estr g; elist estr v]
